@@ -102,6 +102,9 @@ let handle (line : string) : string =
     "c11deal " ^ (if M.accepts (M.N.to_nat (n_of_int (int_of_string t))) bc d (z_of_dec i) then "accept" else "refuse")
   | "c11round" :: dev :: compl :: _ ->
     "c11round " ^ Fsm_io.string_of_coq (M.round_outcome (dev = "deviating") (compl = "true"))
+  | "c18air" :: kind :: had :: ok :: _ ->
+    let k = match kind with "commits" -> M.KCommits | "signing" -> M.KSigning | _ -> M.KLater in
+    "c18air " ^ (match M.aclass_of k (had = "1") (ok = "1") with M.AOk -> "ok" | M.AErrorResult -> "error-result" | M.ARejected -> "rejected")
   | "c04lock" :: _ -> "c04lock waits=" ^ (if M.tick_waits_during_command then "true" else "false")
   | "c04rounds" :: t1 :: m1 :: t2 :: m2 :: _ ->
     let nat s = M.N.to_nat (n_of_int (int_of_string s)) in
